@@ -3,7 +3,8 @@
 Polygons are valid by construction (simple, non-zero area); the check modules re-validate them with the
 exact predicates of exactpoly and raise HarnessError if the construction is wrong.
 
-polygon spec      {"kind": "convex"|"star"|"hist", "v": [[x, y], ...], "cw": bool, "hang": bool}
+polygon spec      {"kind": "convex"|"star"|"hist", "v": [[x, y], ...], "cw": bool, "hang": bool,
+                   "c": star centre (lattice point strictly inside that sees all vertices in distinct directions) | None}
 polyhedron spec   {"pts": [[x, y, z], ...]}  (affine rank 3 by construction; the hull is computed by the check)
 voxel solid spec  {"h": [[...], ...], "perm": [a, b, c], "flip": [bool, bool, bool], "shift": [i, j, k]}
 """
@@ -83,6 +84,7 @@ def polygon(draw, kinds=("convex", "star", "star", "hist"), max_extra=7, allow_h
             v = v[::-1]
     sh = draw(st.lists(st.integers(-3, 3), min_size=2, max_size=2))
     v = [[p[0] + sh[0], p[1] + sh[1]] for p in v]
+    centre = list(sh) if kind == "star" else None
     hang = allow_hang and draw(st.integers(0, 4)) == 0
     if hang:
         # double the coordinates and insert the midpoint of some edges as redundant vertices
@@ -95,12 +97,13 @@ def polygon(draw, kinds=("convex", "star", "star", "hist"), max_extra=7, allow_h
             if (mask >> i) & 1:
                 out.append([p[0] + q[0], p[1] + q[1]])
         v = out
+        centre = [2 * centre[0], 2 * centre[1]] if centre is not None else None
     r = draw(st.integers(0, len(v) - 1))
     v = v[r:] + v[:r]
     cw = draw(st.booleans())
     if cw:
         v = v[::-1]
-    return {"kind": kind, "v": v, "cw": cw, "hang": hang}
+    return {"kind": kind, "v": v, "cw": cw, "hang": hang, "c": centre}
 
 
 @st.composite
@@ -113,30 +116,48 @@ def half_points2(draw, v, min_size=1, max_size=5, margin=1):
 
 
 @st.composite
-def polyhedron_points(draw, max_extra=6, box=3):
-    """Integer points whose hull has non-empty interior: a lattice tetrahedron plus extra lattice points."""
+def polyhedron_points(draw, max_extra=6, box=3, far=False):
+    """Integer points whose hull has non-empty interior: a lattice tetrahedron (or, one time in three, the corners
+    of a lattice box, which gives polygonal faces) plus extra lattice points; `far` adds a shift of up to 6."""
     o = draw(st.lists(st.integers(-2, 2), min_size=3, max_size=3))
-    perm = draw(st.permutations([0, 1, 2]))
-    e = []
-    for k in range(3):
-        vec = [draw(st.integers(-1, 1)) for _ in range(3)]
-        vec[perm[k]] = draw(st.sampled_from([-3, -2, -1, 1, 2, 3]))
-        # keep the vectors triangular w.r.t. the permuted axes so that they are independent
-        for kk in range(k):
-            vec[perm[kk]] = 0
-        e.append(vec)
-    pts = [o] + [[o[i] + ev[i] for i in range(3)] for ev in e]
+    if draw(st.integers(0, 2)) == 0:
+        ext = draw(st.lists(st.integers(1, 3), min_size=3, max_size=3))
+        pts = [[o[0] + i * ext[0], o[1] + j * ext[1], o[2] + k * ext[2]] for i in (0, 1) for j in (0, 1) for k in (0, 1)]
+        max_extra = min(max_extra, 2)
+    else:
+        perm = draw(st.permutations([0, 1, 2]))
+        e = []
+        for k in range(3):
+            vec = [draw(st.integers(-1, 1)) for _ in range(3)]
+            vec[perm[k]] = draw(st.sampled_from([-3, -2, -1, 1, 2, 3]))
+            # keep the vectors triangular w.r.t. the permuted axes so that they are independent
+            for kk in range(k):
+                vec[perm[kk]] = 0
+            e.append(vec)
+        pts = [o] + [[o[i] + ev[i] for i in range(3)] for ev in e]
     pts += draw(st.lists(st.lists(st.integers(-box, box), min_size=3, max_size=3), max_size=max_extra))
+    if far and draw(st.booleans()):
+        sh = draw(st.lists(st.integers(-6, 6), min_size=3, max_size=3))
+        pts = [[p[k] + sh[k] for k in range(3)] for p in pts]
     return {"pts": pts}
 
 
 @st.composite
-def half_points3(draw, pts, min_size=1, max_size=4, margin=1):
+def half_points3(draw, pts, min_size=1, max_size=4, margin=1, anchors=None):
+    """Query points with coordinates k/2 (returned as integer triples k): uniformly in the bounding box of
+    pts +- margin, or (when anchors - doubled coordinates - are given) an anchor plus an offset in {-1,0,1}^3."""
     rng = []
     for a in range(3):
         c = [p[a] for p in pts]
         rng.append(st.integers(2 * (min(c) - margin), 2 * (max(c) + margin)))
-    return draw(st.lists(st.tuples(*rng).map(list), min_size=min_size, max_size=max_size))
+    box = st.tuples(*rng).map(list)
+    if anchors:
+        near = st.tuples(st.sampled_from(anchors), st.lists(st.sampled_from([0, 0, 0, -1, 1]), min_size=3, max_size=3)) \
+            .map(lambda t: [t[0][k] + t[1][k] for k in range(3)])
+        one = st.one_of(box, near, near)
+    else:
+        one = box
+    return draw(st.lists(one, min_size=min_size, max_size=max_size))
 
 
 @st.composite
